@@ -1,0 +1,6 @@
+//go:build !verif
+
+package slip
+
+// VerifPoint is a no-op unless built with the verif tag.
+func VerifPoint(name string) {}
